@@ -540,3 +540,261 @@ def g_c14(rng, tier, budget):
 
 
 GENERATORS.update({"C14": g_c14})
+
+
+# ---------------------------------------------------------------------------------------
+# C05: load traces on the checked small-lane vectors and hooked raw reads; guard pages
+
+def end_at_guard(length):
+    return (4096 - length) % 4096
+
+
+def g_c05(rng, tier, budget):
+    n = 0
+    # (i) generic find/rfind/count on small lanes: trace equality, region = exactly the haystack
+    for op, meta in gen_gfind(rng, tier, ["fwd", "rev"], 60000 if tier == "quick" else None):
+        yield op, meta
+    for op, meta in gen_gcount(rng, tier, 8000 if tier == "quick" else None):
+        yield op, meta
+    # (ii) SWAR + real SSE2/AVX2 wrappers with the window ending / starting exactly at a guard page
+    maxlen = 80 if tier == "quick" else 130
+    for length in range(0, maxlen + 1):
+        for k in (1, 2, 3):
+            needles = NEEDLE_SETS[k][0]
+            fill = filler_for(needles)
+            positions = [None] + sorted(set([0, length - 1, length // 2] + ([rng.randrange(length)] if length else [])))
+            for pos in positions:
+                if pos is not None and (pos < 0 or pos >= length):
+                    continue
+                hay = [fill] * length
+                if pos is not None:
+                    hay[pos] = needles[pos % k]
+                for base in (end_at_guard(length), 0, 1, 7, 4095):
+                    for d in ("fwd", "rev"):
+                        yield ("swar %s %s %d 0 %d %s" % (hx(needles), d, base, length, hx(hay)), dict(family="swar"))
+                        for be in ("sse2", "avx2"):
+                            yield ("memchr %s %s %s %d 0 %d %s" % (be, hx(needles), d, base, length, hx(hay)),
+                                   dict(family="memchr-" + be))
+                    if k == 1:
+                        yield ("swarcount %s %d 0 %d %s" % (hx(needles), base, length, hx(hay)), dict(family="swarcount"))
+                        for be in ("sse2", "avx2"):
+                            yield ("count %s %s %d 0 %d %s" % (be, hx(needles), base, length, hx(hay)),
+                                   dict(family="count-" + be))
+    # raw forms with start >= end
+    for (s, e) in ((5, 5), (6, 5), (10, 0)):
+        for d in ("fwd", "rev"):
+            yield ("swar 61 %s 0 %d %d %s" % (d, s, e, hx([0x61] * 10)), dict(family="swar-empty"))
+            for be in ("sse2", "avx2"):
+                yield ("memchr %s 61 %s 0 %d %d %s" % (be, d, s, e, hx([0x61] * 10)), dict(family="memchr-empty"))
+    # (iii) is_equal & friends abutting guard pages
+    for op, meta in gen_iseq(rng, "quick", None):
+        yield op, meta
+    # (iv) Rabin-Karp incl. foreign needles (value unspecified, reads must stay inside)
+    for d in ("fwd", "rev"):
+        for L in range(0, 12):
+            needle = [rng.choice([0x61, 0x62]) for _ in range(L)]
+            for H in list(range(0, 20)) + [40]:
+                hay = [rng.choice([0x61, 0x62]) for _ in range(H)]
+                yield ("rk %s %d %s %d %s" % (d, end_at_guard(H), hx(hay), end_at_guard(L), hx(needle)), dict(family="rk"))
+                other = [rng.choice([0x61, 0x62, 0x63]) for _ in range(rng.randrange(0, 14))]
+                yield ("rkx %s %s %d %s %d %s" % (d, hx(other), end_at_guard(H), hx(hay), end_at_guard(L), hx(needle)),
+                       dict(family="rkx", domain="out"))
+    # (v) packed pair on small lanes: construction needle, shorter and longer foreign needles
+    for op, meta in gen_ppfind(rng, tier, 20000 if tier == "quick" else None):
+        yield op, meta
+    for op, meta in gen_ppfind(rng, tier, 10000 if tier == "quick" else None, pre=True):
+        yield op, meta
+    for lanes in (4,):
+        for needle in ([0x61, 0x62, 0x63], [0x61] * 7, [0x61, 0x62] * 5):
+            L = len(needle)
+            for (i1, i2) in ((0, 1), (L - 1, 0)):
+                minlen = max(L, max(i1, i2) + lanes)
+                for H in range(minlen, minlen + 2 * lanes + 1):
+                    for fl in (1, L - 1, L + 1, H, H + 1, H + 9):
+                        if fl < 0:
+                            continue
+                        sneedle = [needle[j % L] for j in range(fl)]
+                        hay = [needle[(j) % L] for j in range(H)]
+                        yield ("ppfind %d %s %d %d %d %s %d %s" % (lanes, hx(needle), i1, i2, end_at_guard(fl), hx(sneedle),
+                                                                   end_at_guard(H), hx(hay)),
+                               dict(family="ppfind-foreign", domain="out", allow_model_ptroob=True))
+    # real SSE2/AVX2 packed pair with the haystack ending at a guard page
+    for isa, B in (("sse2", 16), ("avx2", 32)):
+        for needle in ([0x61, 0x62, 0x63], [0x61] * 9, list(range(0x41, 0x41 + 20))):
+            L = len(needle)
+            for (i1, i2) in ((0, 1), (L - 1, 0)):
+                minlen = max(L, max(i1, i2) + 16)
+                for H in range(minlen, minlen + 3 * B + 2):
+                    hay = [0x2E] * H
+                    p = rng.randrange(0, H - L + 1)
+                    hay[p:p + L] = needle
+                    for kind in ("find", "pre"):
+                        yield ("ppreal %s %s %s %d %d %d %s %d %s" % (isa, kind, hx(needle), i1, i2, end_at_guard(L), hx(needle),
+                                                                      end_at_guard(H), hx(hay)),
+                               dict(family="ppreal-" + isa, modelless=True))
+    # (vi) Two-Way (safe code apart from is_equal inside Shift)
+    for d in ("fwd", "rev"):
+        for needle in structured_needles(rng, "quick")[:60]:
+            for hay in haystacks_for(rng, needle, "quick", sizes=[0, len(needle), 2 * len(needle) + 3, 64]):
+                yield ("twfind %s %s %s" % (d, hx(needle), hx(hay)), dict(family="twfind"))
+
+
+GENERATORS.update({"C05": g_c05})
+
+
+# ---------------------------------------------------------------------------------------
+# byte search at API level: wrappers / dispatch on every configuration
+
+# (executor variant, backend the dispatcher must pick there, direct wrapper backends testable there)
+BYTE_CFGS_QUICK = [
+    ("host", "avx2", ["avx2", "sse2", "swar"]),
+    ("noavx2", "sse2", []),
+    ("nosse2", "swar", []),
+    ("neon", "neon", ["neon"]),
+    ("simd128", "simd128", ["simd128"]),
+]
+BYTE_CFGS_THOROUGH = BYTE_CFGS_QUICK + [("alloconly", "sse2", []), ("avx2ct", "avx2", [])]
+UNTRACED = {"avx2": [16, 32], "sse2": [16, 32]}
+
+
+def byte_cases(rng, tier, maxlen):
+    """(needles, base, hay) with the first/last match in every phase"""
+    for k in (1, 2, 3):
+        nsets = NEEDLE_SETS[k] if tier == "thorough" else NEEDLE_SETS[k][:2]
+        for needles in nsets:
+            fill = filler_for(needles)
+            for length in list(range(0, maxlen + 1)):
+                bases = [0, 1, 15, 31, 33, 63, end_at_guard(length)] if tier == "thorough" else [rng.randrange(64), end_at_guard(length)]
+                for base in bases:
+                    pos_sets = [()]
+                    if length:
+                        ps = sorted(set([0, length - 1, length // 2] + [rng.randrange(length) for _ in range(2)]))
+                        pos_sets += [(p,) for p in ps]
+                        pos_sets.append((0, length - 1))
+                    for pl in pos_sets:
+                        hay = [fill] * length
+                        for j, p in enumerate(pl):
+                            hay[p] = needles[(j + p) % k]
+                        yield needles, base, hay
+    # multi-KiB haystacks
+    for size in ((3000, 5000) if tier == "quick" else (3000, 5000, 9000, 20000)):
+        for needles in ([0x61], [0x61, 0x62, 0x63]):
+            for pos in (None, 0, size - 1, size // 2, size - 33):
+                yield needles, rng.randrange(64), ("big", size, pos, needles[0])
+
+
+def hay_hex(hay):
+    if isinstance(hay, tuple):
+        _, size, pos, b = hay
+        if pos is None:
+            return "r%dx2e" % size, size
+        return "r%dx2e+%02x+r%dx2e" % (pos, b, size - pos - 1), size
+    return hx(hay), len(hay)
+
+
+def gen_byte_api(rng, tier, dirs, budget, with_count=False):
+    cfgs = BYTE_CFGS_QUICK if tier == "quick" else BYTE_CFGS_THOROUGH
+    maxlen = 140 if tier == "quick" else 300
+    n = 0
+    for needles, base, hay in byte_cases(rng, tier, maxlen):
+        hh, length = hay_hex(hay)
+        for (variant, picked, direct) in cfgs:
+            for d in dirs:
+                yield ("memchrd %s %s %s %d 0 %d %s" % (picked, hx(needles), d, base, length, hh),
+                       dict(cfg=variant, family="memchrd-%s" % variant, untraced_widths=UNTRACED.get(picked)))
+                for be in direct:
+                    yield ("memchr %s %s %s %d 0 %d %s" % (be, hx(needles), d, base, length, hh),
+                           dict(cfg=variant, family="memchr-%s" % be, untraced_widths=UNTRACED.get(be)))
+                n += 1
+            if with_count and len(needles) == 1:
+                yield ("countd %s %s %d 0 %d %s" % (picked, hx(needles), base, length, hh),
+                       dict(cfg=variant, family="countd-%s" % variant, untraced_widths=UNTRACED.get(picked)))
+                for be in direct:
+                    yield ("count %s %s %d 0 %d %s" % (be, hx(needles), base, length, hh),
+                           dict(cfg=variant, family="count-%s" % be, untraced_widths=UNTRACED.get(be)))
+        if budget and n >= budget:
+            return
+    # raw forms with start >= end
+    for (s, e) in ((5, 5), (6, 5), (10, 0)):
+        for d in dirs:
+            for be, variant in (("avx2", "host"), ("sse2", "host"), ("swar", "host"), ("neon", "neon"), ("simd128", "simd128")):
+                yield ("memchr %s 61 %s 0 %d %d %s" % (be, d, s, e, hx([0x61] * 10)), dict(cfg=variant, family="memchr-empty"))
+
+
+def g_c01(rng, tier, budget):
+    yield from gen_gfind(rng, tier, ["fwd"], budget)
+    yield from gen_byte_api(rng, tier, ["fwd"], budget)
+
+
+def g_c02(rng, tier, budget):
+    yield from gen_gfind(rng, tier, ["rev"], budget)
+    yield from gen_byte_api(rng, tier, ["rev"], budget)
+
+
+def dense_cases(rng, tier):
+    for length in list(range(0, 100)) + [300, 1000, 4097]:
+        for dens in (0.0, 0.1, 0.5, 0.9, 1.0):
+            hay = [0x61 if rng.random() < dens else 0x2E for _ in range(length)]
+            yield [0x61], rng.randrange(64), hay
+
+
+def g_c07(rng, tier, budget):
+    yield from gen_gcount(rng, tier, budget)
+    cfgs = BYTE_CFGS_QUICK if tier == "quick" else BYTE_CFGS_THOROUGH
+    for needles, base, hay in dense_cases(rng, tier):
+        for (variant, picked, direct) in cfgs:
+            yield ("countd %s %s %d 0 %d %s" % (picked, hx(needles), base, len(hay), hx(hay)),
+                   dict(cfg=variant, family="countd-%s" % variant, untraced_widths=UNTRACED.get(picked)))
+            for be in direct:
+                yield ("count %s %s %d 0 %d %s" % (be, hx(needles), base, len(hay), hx(hay)),
+                       dict(cfg=variant, family="count-%s" % be, untraced_widths=UNTRACED.get(be)))
+    # iterator count on partially consumed iterators (from both ends)
+    for op, meta in gen_iter(rng, tier, budget, count_heavy=True):
+        yield op, meta
+
+
+def gen_iter(rng, tier, budget, count_heavy=False):
+    """all op sequences up to a length over all match sets of small haystacks + long random ones"""
+    cfgs = BYTE_CFGS_QUICK if tier == "quick" else BYTE_CFGS_THOROUGH
+    alphabet = "nbsc"
+    n = 0
+    # exhaustive: haystacks over {needle, filler} of length <= L, all op strings up to length K
+    L, K = (5, 4) if tier == "quick" else (7, 6)
+    seqs = [""]
+    for k in range(1, K + 1):
+        seqs += ["".join(t) for t in itertools.product(alphabet, repeat=k)]
+    if tier == "quick":
+        seqs = [s for s in seqs if len(s) <= 3] + rng.sample([s for s in seqs if len(s) > 3], 60)
+    for length in range(0, L + 1):
+        for bits in range(1 << length):
+            hay = [0x61 if (bits >> i) & 1 else 0x2E for i in range(length)]
+            for (variant, picked, direct) in cfgs[:1] if tier == "quick" else cfgs:
+                for ops in seqs:
+                    if count_heavy and "c" not in ops:
+                        continue
+                    yield ("iterd %s 61 %d %s %s" % (picked, rng.randrange(64), hx(hay), ops or "-"),
+                           dict(cfg=variant, family="iterd-small", untraced_widths=UNTRACED.get(picked)))
+                    n += 1
+        if budget and n >= budget:
+            return
+    # long haystacks, sparse/dense, random long op strings, every configuration and wrapper
+    for _ in range(60 if tier == "quick" else 400):
+        length = rng.choice([17, 33, 64, 65, 100, 257, 1000])
+        dens = rng.choice([0.02, 0.2, 0.8])
+        k = rng.choice([1, 2, 3])
+        needles = NEEDLE_SETS[k][0]
+        hay = [rng.choice(needles) if rng.random() < dens else 0x2E for _ in range(length)]
+        ops = "".join(rng.choice("nnbbsc" if not count_heavy else "nbcc") for _ in range(rng.randrange(1, 40)))
+        for (variant, picked, direct) in cfgs:
+            yield ("iterd %s %s %d %s %s" % (picked, hx(needles), rng.randrange(64), hx(hay), ops),
+                   dict(cfg=variant, family="iterd-long", untraced_widths=UNTRACED.get(picked)))
+            for be in direct:
+                yield ("iter %s %s %d %s %s" % (be, hx(needles), rng.randrange(64), hx(hay), ops),
+                       dict(cfg=variant, family="iter-" + be, untraced_widths=UNTRACED.get(be)))
+
+
+def g_c06(rng, tier, budget):
+    yield from gen_iter(rng, tier, budget)
+
+
+GENERATORS.update({"C01": g_c01, "C02": g_c02, "C07": g_c07, "C06": g_c06})
